@@ -237,6 +237,12 @@ fn main() {
       let t = local.block_on(&rt, async move { limits_suite::run_suite(seed, cases).await });
       std::fs::write(&a.out, t).expect("write transcript");
     },
+    "micro" => {
+      let (rt, local) = local_rt();
+      let (seed, cases) = (a.seed, a.cases);
+      let t = local.block_on(&rt, async move { lat_suite::run_micro_suite(seed, cases).await });
+      std::fs::write(&a.out, t).expect("write transcript");
+    },
     "probe_stale" => {
       let (rt, local) = local_rt();
       let variant = a.extra.get("variant").cloned().unwrap_or_else(|| "join".into());
